@@ -84,4 +84,5 @@ def scenario(draw, min_boards=1, max_boards=3, play_prob=3):
         else:
             intruders.append({'kind': kind, 'seat': (early + 2) % 4, 'team': teams[early % 2] + '?', 'version': 18, 'after': early})
     return {'boards': boards, 'teams': teams, 'arrival': arrival, 'intruders': intruders,
+            'linger': draw(st.one_of(st.just([]), st.just([]), st.lists(st.integers(0, 3), max_size=4, unique=True))),
             'fmt': draw(fmt()), 'split': draw(st.one_of(st.none(), st.none(), st.lists(st.integers(1, 7), min_size=1, max_size=5)))}
